@@ -16,6 +16,7 @@ pub fn cfg() -> GenCfg {
         plain_sourcefile_headers: false,
         records_inside_inline_groups: false,
         overloads: true,
+        alias_ranges: true,
         max_blocks: 6,
         max_items: 12,
         ..GenCfg::default()
